@@ -26,6 +26,8 @@ pub enum Op {
     Reparse(usize),
     /// Continue with a clone of the parser (shares the partial store).
     CloneParser,
+    /// Parse a broken text on the shared parser: must fail exactly as on a fresh parser.
+    ParseCorrupt(usize),
 }
 
 #[derive(Clone, Debug, Serialize, Deserialize)]
@@ -167,6 +169,19 @@ fn run_history(
                 subj.parser = subj.parser.clone();
                 rep.bump("op.clone_parser", 1);
             }
+            Op::ParseCorrupt(k) => {
+                let text = gen::CORRUPT[*k % gen::CORRUPT.len()];
+                let got = world::parse(&subj.parser, text).err();
+                let want = spec.build(policy).and_then(|w| Ok(world::parse(&w.parser, text).err()))?;
+                rep.bump("op.parse_corrupt", 1);
+                if got != want {
+                    return Ok(Some((
+                        i,
+                        "I1-result-differs".into(),
+                        format!("op #{i}: parsing the broken text {text:?} on the shared parser gave {got:?} but a fresh parser gives {want:?}"),
+                    )));
+                }
+            }
         }
     }
     for (d, g) in globals.iter().enumerate() {
@@ -183,6 +198,7 @@ fn history_show(h: &[Op]) -> Vec<String> {
             Op::Call(c) => c.show(),
             Op::Reparse(t) => format!("reparse(t{t})"),
             Op::CloneParser => "clone_parser".into(),
+            Op::ParseCorrupt(k) => format!("parse(corrupt#{k})"),
         })
         .collect()
 }
@@ -380,6 +396,7 @@ impl Engine for C09 {
                     match rng.below(10) {
                         0 => h.push(Op::Reparse(rng.below(spec.templates.len()))),
                         1 => h.push(Op::CloneParser),
+                        2 => h.push(Op::ParseCorrupt(rng.below(gen::CORRUPT.len()))),
                         _ => {}
                     }
                     h.push(Op::Call(letters[rng.below(a)].0.clone()));
